@@ -21,7 +21,8 @@ META = {
 def queries(tier, kf):
     M = {"VT_MONITOR": None}
     M1 = {"VT_MONITOR": None, "NO_FAIL_WITNESS": None}
-    qs = [ring_q("c07-ring-O1-1x1", 0, 1, 1, 3, extra=M1, timeout=7200, unwind=9)]
+    from .. import gens
+    qs = [gens.selftest_query("c07-ir2c-selftest"), ring_q("c07-ring-O1-1x1", 0, 1, 1, 3, extra=M1, timeout=7200, unwind=9)]
     if tier == "thorough":
         qs += [ring_q("c07-ring-O1-1x2", 0, 1, 2, 3, extra=M1, timeout=14400, unwind=9), ring_q("c07-ring-O1-2x1", 0, 2, 1, 3, extra=M, timeout=14400, unwind=9),
                ring_q("c07-ring-O2-1x1", 0, 1, 1, 3, extra=M1, opt="-O2", timeout=7200, unwind=9)]
